@@ -13,6 +13,9 @@ PRECS = ["single", "double"]
 SHAPES = ["diamond", "circle", "point"]
 
 
+MODES = [4, 6, 8, 8, 10, 14, 20, 512]
+
+
 def gen_cfg(rng):
     """a valid configuration as a plain dict (parse_config_dict input) + bookkeeping"""
     nx, ny = int(rng.choice([8, 10, 12])), int(rng.choice([8, 10, 12]))
@@ -37,7 +40,7 @@ def gen_cfg(rng):
         nstep = 1
     if rng.random() < 0.5:
         met["timestamps"] = ["2024-01-01T%02d:00" % k for k in range(nstep)]
-    dom = dict(nx=nx, ny=ny, xmax=xmax, ymax=ymax, nz=nz, modes=[int(rng.choice([4, 6, 8])), int(rng.choice([4, 6, 8]))],
+    dom = dict(nx=nx, ny=ny, xmax=xmax, ymax=ymax, nz=nz, modes=[int(rng.choice(MODES)), int(rng.choice(MODES))],      # below / between / above the two padded sizes (8..20 cells)
                ref_lat=float(rng.uniform(-50, 50)), ref_lon=float(rng.uniform(-100, 100)))
     hk = rng.random()
     if hk < 0.5:
